@@ -1,3 +1,6 @@
 import DatamonVerif.Util
 import DatamonVerif.Model.Tracker
 import DatamonVerif.Props.C22
+import DatamonVerif.Model.Store
+import DatamonVerif.Model.LocalFS
+import DatamonVerif.Props.C16
